@@ -37,14 +37,21 @@ class Layout(object):
         self.key = {}  # ci -> tuple of constant texts (clause variable values)
         self.kind = {}  # ci -> 'pfact' | 'ad'
         self.stmt = {}
+        # semantics.ground() numbers the statements of the expanded program (a rule_or statement abbreviates two
+        # rules); self.stmt is the index in the program as given (= line of the rendered text)
+        expand = getattr(sem, "expand", None)
+        xprog = expand(prog) if expand is not None else prog
+        orig = []
+        for i, s in enumerate(prog):
+            orig.extend([i, i] if (s[0] == "rule_or" and expand is not None) else [i])
         for ci in self.choices:
             pr = list(res.gp.choices[ci])
             self.probs[ci] = pr + [1 - sum(pr)]
             self.heads[ci] = [None] * len(pr)
             idx, key = res.gp.choice_info[ci]
-            self.stmt[ci] = idx
+            self.stmt[ci] = orig[idx]
             self.key[ci] = tuple(str(x[1]) for x in key)
-            self.kind[ci] = "pfact" if prog[idx][0] == "pfact" else "ad"
+            self.kind[ci] = "pfact" if xprog[idx][0] == "pfact" else "ad"
         for head, pos, neg, ch in res.gp.rules:
             if ch is not None and ch[0] in self.heads:
                 self.heads[ch[0]][ch[1]] = sem.atom_str(head)
@@ -62,6 +69,15 @@ class Layout(object):
         for v in vals:
             m |= self.res.cmask[(ci, v)]
         return m
+
+    def independent(self, mask, ci):
+        """Is the world set `mask` invariant under changing the value of choice ci?"""
+        k = self.pos_of[ci]
+        base = mask & self.res.cmask[(ci, 0)]
+        for v in range(1, self.arity[k]):
+            if (mask & self.res.cmask[(ci, v)]) >> (v * self.stride[k]) != base:
+                return False
+        return True
 
     def atom_mask(self, text):
         """Worlds in which the ground atom with this text is true (0 when it is not derivable)."""
@@ -130,7 +146,8 @@ def atoms_of(formula):
             p = float(n.probability) if n.probability is not True else None
         except Exception:
             p = None
-        e = {"index": i, "name": str(n.name), "p": p, "kind": "pfact", "gid": None, "idx": None, "head": None}
+        e = {"index": i, "name": str(n.name), "p": p, "kind": "pfact", "gid": None, "idx": None, "head": None,
+             "ident": n.identifier if isinstance(n.identifier, int) else None}
         g = getattr(n, "group", None)
         if g is not None:
             e["kind"] = "ad"
@@ -152,8 +169,9 @@ def _pclose(a, b):
     return a is not None and abs(a - float(b)) <= 1e-9
 
 
-def map_atoms(atoms, lay):
-    """Map the tool's probabilistic atoms (atoms_of) to reference (choice, value) pairs.
+def map_atoms(atoms, lay, stmt_map=None):
+    """Map the tool's probabilistic atoms (atoms_of) to reference (choice, value) pairs.  stmt_map (see
+    c20_locate.statement_map) pins every atom to the program statement it comes from.
 
     Returns (per_atom, by_name, dref, unmapped): per_atom[k] = (ci, vi | 'rest') | None for the k-th atom;
     by_name[text] = list of (ci, vi | 'rest') (several for duplicate names); dref = {ci: set(vi)} = the values that
@@ -166,8 +184,10 @@ def map_atoms(atoms, lay):
     groups = {}
     for k, e in enumerate(atoms):
         if e["kind"] == "pfact":
+            st = stmt_map.get(("f", e["ident"])) if stmt_map is not None else None
             cands = [ci for ci in lay.choices if ci not in used and lay.kind[ci] == "pfact"
-                     and lay.heads[ci][0] == e["name"] and _pclose(e["p"], lay.probs[ci][0])]
+                     and (st is None or lay.stmt[ci] == st)
+                     and (lay.heads[ci][0] == e["name"] or st is not None) and _pclose(e["p"], lay.probs[ci][0])]
             if not cands:
                 unmapped.append(e["name"])
                 continue
@@ -182,8 +202,12 @@ def map_atoms(atoms, lay):
         members = groups[gid]
         vs = gid[1]
 
+        st = stmt_map.get(("g", gid[0])) if stmt_map is not None else None
+
         def fits(ci, exact):
             if lay.kind[ci] != "ad" or ci in used:
+                return False
+            if st is not None and lay.stmt[ci] != st:
                 return False
             if exact:
                 if lay.key[ci] != vs:
